@@ -140,19 +140,11 @@ func (m *Manager) Allocate(ctx context.Context, cni *daemon.CNI, req *AllocReque
 
 	go func() {
 		// start a goroutine to collect the result
-		for {
-			select {
-			case <-ctx.Done():
-				close(done)
-				return
-			case resp, ok := <-resultCh:
-				if !ok {
-					close(done)
-					return
-				}
-				result = append(result, resp...)
-			}
+		// Do not stop on ctx: what an eni has already committed must reach the caller, or nobody rolls it back.
+		for resp := range resultCh {
+			result = append(result, resp...)
 		}
+		close(done)
 	}()
 
 	wg := sync.WaitGroup{}
@@ -189,7 +181,12 @@ func (m *Manager) Allocate(ctx context.Context, cni *daemon.CNI, req *AllocReque
 					break
 				}
 			}
-			return nil, fmt.Errorf("no eni can handle the allocation")
+			// stop the requests already sent and hand what they got to the caller for roll back
+			cancel()
+			wg.Wait()
+			close(resultCh)
+			<-done
+			return result, fmt.Errorf("no eni can handle the allocation")
 		}
 
 		wg.Add(1)
@@ -197,26 +194,31 @@ func (m *Manager) Allocate(ctx context.Context, cni *daemon.CNI, req *AllocReque
 		go func() {
 			defer wg.Done()
 
+			var (
+				resp *AllocResp
+				ok   bool
+			)
 			select {
 			case <-ctx.Done():
-				break
-			case resp, ok := <-ch:
-				if !ok {
-					err = fmt.Errorf("ctx done")
-					cancel()
-					break
-				}
-				if resp.Err != nil {
-					err = resp.Err
-					cancel()
-					break
-				}
-
+				// the eni may have committed its result already, pick it up so the caller can roll it back
 				select {
-				case <-ctx.Done():
-				case resultCh <- resp.NetworkConfigs:
+				case resp, ok = <-ch:
+				default:
+					return
 				}
+			case resp, ok = <-ch:
 			}
+			if !ok {
+				err = fmt.Errorf("ctx done")
+				cancel()
+				return
+			}
+			if resp.Err != nil {
+				err = resp.Err
+				cancel()
+				return
+			}
+			resultCh <- resp.NetworkConfigs
 		}()
 	}
 	m.Unlock()
